@@ -98,6 +98,13 @@ CHECKS = {
         note="Real PCG64, fixed seeds. Calculators are re-attached (not serialized), as documented.",
         technique="exhaustive restart-point enumeration (every k of every run) on the implementation, differential against the uninterrupted run",
     ),
+    "C06": dict(
+        category="exploration",
+        text="Configuration alphabet enumerated completely: 7 drivers (Canonical, HamiltonianCanonical, Isobaric, Isotension, GrandCanonical, ForceBias, AdaptiveForceBias) x 12 move tables x seeds {0,1,2,42,2^32-1,2^32,2^63,2^64-1,f(VERIF_SEED)} x global-generator states {untouched, reseeded differently before each run, consumed between runs}: two simulations in one process, 5 steps, compared bitwise after every step (atoms, move history) and in log text; the seed used must be the seed given; different seeds must give different trajectories; draws from numpy's/Python's global generators made from quansino code while a simulation runs are trapped with their call site.",
+        design_ref="4-C06",
+        note="PCG64's quality is trusted. Names bound at import time (from numpy.random import ...) escape the monitor and are covered by the run-twice comparison only.",
+        technique="exhaustive enumeration of a finite configuration alphabet on the implementation, run-twice bitwise differential plus global-draw monitor",
+    ),
 }
 
 NA_REASON = "check not built yet in this session (design in DESIGN.md); no claim is made"
